@@ -705,13 +705,15 @@ def gen_fields(repo):
                 continue  # test-only helper types are not part of the library's snapshot format
             st.serde = has_serialize_derive(st.attrs)
             st.derive_clone = has_clone_derive(st.attrs)
-            if st.serde or st.name in ("Qmc", "QmcIsingGraph"):
+            if st.serde or st.name in ("Qmc", "QmcIsingGraph", "GraphState"):
                 if st.name in structs:
                     raise Unknown("two serde structs named %s" % st.name)
                 structs[st.name] = st
     required = ["QmcIsingGraph", "SerializeQmcGraph", "Qmc", "TemperingContainer", "SerializeTemperingContainer",
                 "FastOpsTemplate", "FastOpNodeTemplate", "Allocator", "DefaultFastOpAllocator", "BondWeights", "BondContainer",
                 "Interaction", "BasicOp", "PRel"]
+    if "GraphState" not in structs:
+        raise Unknown("struct GraphState (classical sampler) not found")
     for r in required:
         if r not in structs:
             raise Unknown("struct %s not found (or no longer derives Serialize)" % r)
@@ -732,6 +734,8 @@ def gen_fields(repo):
     for n in sorted(models):
         mo = models[n]
         out.append(mo.lean_structure() + "\n")
+        if not mo.st.serde:
+            continue
         txt, usedp = mo.lean_serde_rt()
         rt_params[n] = usedp
         out.append(txt + "\n")
@@ -799,7 +803,8 @@ def gen_fields(repo):
 
     # ---- manual Clone impls ---------------------------------------------------------------------
     out.append("/-! ## Manual `Clone` impls -/\n")
-    for sname, hdr in (("QmcIsingGraph", r"impl<R,M>CloneforQmcIsingGraph<R,M>where.*"), ("Qmc", r"impl<R,M>CloneforQmc<R,M>where.*")):
+    for sname, hdr in (("QmcIsingGraph", r"impl<R,M>CloneforQmcIsingGraph<R,M>where.*"), ("Qmc", r"impl<R,M>CloneforQmc<R,M>where.*"),
+                       ("GraphState", r"impl<R:Rng\+Clone>CloneforGraphState<R>")):
         mo = models[sname]
         body, params = find_impl_fn(srcs[mo.st.file], hdr, "clone", mo.st.file)
         if squash(params) != "&self":
@@ -810,6 +815,15 @@ def gen_fields(repo):
         out.append("/-- `impl Clone for %s` (every `.clone()` of a component is a structural copy: trusted std/derive semantics) -/" % sname)
         out.append("def %s.clone {%s : Type}%s\n    (x : %s) : %s :=\n    %s\n" % (
             sname, " ".join(ps), "".join(" [Inhabited %s]" % t for t in dict.fromkeys(inh)), mo.applied(), mo.applied(), lit))
+
+    manual = []
+    for file in sorted(srcs):
+        for m in re.finditer(r"^[ \t]*impl\b[^{;]*\bClone\s+for\s+([A-Za-z_]\w*)", srcs[file], re.M):
+            manual.append(m.group(1))
+    if sorted(manual) != ["GraphState", "Qmc", "QmcIsingGraph"]:
+        raise Unknown("manual Clone impls in the crate are %s; modelled: GraphState, Qmc, QmcIsingGraph" % sorted(manual))
+    out.append("/-- every hand-written `impl Clone` in the crate (all modelled above) -/")
+    out.append("def manualClone : List String := %s\n" % norm_list(sorted(manual)))
 
     # ---- tempering container snapshot / restore -------------------------------------------------
     tsrc = srcs[structs["TemperingContainer"].file]
@@ -879,7 +893,7 @@ def gen_fields(repo):
     out.append("/-! ## Metadata used by the driver (JSON keys the real serde output must have) and by the report -/\n")
     out.append("/-- struct name ↦ keys that serde writes (fields without `skip`) -/")
     out.append("def serdeKeys : List (String × List String) := [")
-    out.append(",\n".join('  ("%s", %s)' % (n, norm_list(models[n].serde_keys())) for n in sorted(models)))
+    out.append(",\n".join('  ("%s", %s)' % (n, norm_list(models[n].serde_keys())) for n in sorted(models) if models[n].st.serde))
     out.append("]\n")
     out.append("/-- (struct, field) stored as a bare length (`with = \"numeric_serialize\"`) -/")
     out.append("def numericFields : List (String × String) := [%s]\n" % ", ".join('("%s", "%s")' % (n, f) for n in sorted(models) for f, _, mode in models[n].fields if mode and mode[0] == "with"))
@@ -995,6 +1009,13 @@ def gen_ambient(repo):
                         kind = "use" if re.match(r"\s*(pub\s+)?use\s", l) else ("call" if tok.startswith("wrapper-call") else "code")
                         uses.append((rel, ln + 1, tok, fn[1] if fn else "-", takes_rng, in_test, in_hook, kind))
     uses = sorted(set(uses))
+    librs = strip_comments(open(os.path.join(repo, "src", "lib.rs")).read())
+    forbid_unsafe = bool(re.search(r"#!\[forbid\(unsafe_code\)\]", squash(librs)))
+    unsafe_count = 0
+    for root, _, files in os.walk(os.path.join(repo, "src")):
+        for f in sorted(files):
+            if f.endswith(".rs"):
+                unsafe_count += len(re.findall(r"\bunsafe\b", strip_comments(open(os.path.join(root, f)).read()).replace("unsafe_code", "")))
     out = ['''/-
 GENERATED by tools/extract_fields.py (ambient-state scan of /repo/src) — DO NOT EDIT.
 One entry per occurrence of a token through which state from outside the object could enter a run:
@@ -1025,7 +1046,12 @@ def threadRngWrappers : List String := %s
 
 def ambientUses : List AmbientUse := [''' % norm_list(WRAPPERS)]
     out.append(",\n".join('  ⟨"%s", %d, "%s", "%s", %s, %s, %s, "%s"⟩' % (a, b, c, d, str(e).lower(), str(f).lower(), str(g).lower(), h) for a, b, c, d, e, f, g, h in uses))
-    out.append("]\n\nend Qmc.Gen\n")
+    out.append("]\n")
+    out.append("/-- `#![forbid(unsafe_code)]` is present in src/lib.rs: no `unsafe` block can defeat the `&mut` disjointness of\nparallel tasks -/")
+    out.append("def forbidUnsafeCode : Bool := %s\n" % str(forbid_unsafe).lower())
+    out.append("/-- occurrences of the keyword `unsafe` in src (outside comments and the lint name) -/")
+    out.append("def unsafeOccurrences : Nat := %d\n" % unsafe_count)
+    out.append("end Qmc.Gen\n")
     return "\n".join(out), uses
 
 
